@@ -298,3 +298,24 @@ MUTATIONS += [
     }
 """),
 ]
+MUTATIONS += [
+ dict(name="benign-c51-status-test-as-match", props=["C51"], benign=True, file="radix-engine/src/system/system.rs",
+      find="            if let LockStatus::Locked = lock_status {\n                return Err(RuntimeError::SystemError(SystemError::KeyValueEntryLocked));\n            }\n        }\n",
+      replace="            match lock_status {\n                LockStatus::Locked => {\n                    return Err(RuntimeError::SystemError(SystemError::KeyValueEntryLocked));\n                }\n                LockStatus::Unlocked => {}\n            }\n        }\n"),
+ dict(name="benign-c10-lock-comparison-flipped", props=["C10"], benign=True, file="radix-engine/src/blueprints/resource/fungible/fungible_vault.rs",
+      find="        if amount > max_locked {", replace="        if max_locked < amount {"),
+ dict(name="benign-c08-amount-comparison-flipped", props=["C08"], benign=True, file="radix-engine/src/system/system_modules/auth/authorization.rs",
+      find="                    && p.amount(api)? >= amount", replace="                    && amount <= p.amount(api)?"),
+ dict(name="benign-c42-sorted-key-condition-inverted-form", props=["C42"], benign=True, file="radix-engine/src/blueprints/consensus_manager/validator.rs",
+      find="        if !registered || stake.is_zero() {\n            Ok(None)\n        } else {\n            Ok(Some((\n                create_sort_prefix_from_stake(stake)?,\n                scrypto_encode(&address).unwrap(),\n            )))\n        }",
+      replace="        if registered && !stake.is_zero() {\n            Ok(Some((\n                create_sort_prefix_from_stake(stake)?,\n                scrypto_encode(&address).unwrap(),\n            )))\n        } else {\n            Ok(None)\n        }"),
+ dict(name="benign-c23-kind-equality-positive-form", props=["C23"], benign=True, file="sbor/src/schema/schema_comparison/schema_comparison_kernel.rs",
+      find="            TypeKind::Custom(_) => {\n                if compared_type_kind != base_type_kind {\n                    return result.with_mismatch_error(base_type_kind, compared_type_kind);\n                }\n            }",
+      replace="            TypeKind::Custom(_) => {\n                if compared_type_kind == base_type_kind {\n                } else {\n                    return result.with_mismatch_error(base_type_kind, compared_type_kind);\n                }\n            }"),
+ dict(name="benign-c02-revert-order-swapped", props=["C02"], benign=True, file="radix-engine/src/system/system_callback.rs",
+      find="            fee_reserve.revert_royalty();\n            track.revert_non_force_write_changes();",
+      replace="            track.revert_non_force_write_changes();\n            fee_reserve.revert_royalty();"),
+ dict(name="benign-c05-duplicate-test-as-contains-then-insert", props=["C05"], benign=True, file="radix-engine/src/kernel/call_frame.rs",
+      find="                if !new_owned_nodes.insert(*own) {\n                    return Err(SubstateDiffError::ContainsDuplicateOwns);\n                }\n\n                if !self.owned_nodes.contains(own) {",
+      replace="                let newly_listed = new_owned_nodes.insert(*own);\n                if !newly_listed {\n                    return Err(SubstateDiffError::ContainsDuplicateOwns);\n                }\n\n                if !self.owned_nodes.contains(own) {"),
+]
